@@ -36,6 +36,9 @@ def main():
         if a.replay:
             rep = json.load(open(a.replay))
             ctx.replaying = rep
+        if getattr(br, "hooks_excluded", None):
+            ctx.assumptions.append("verif hook files that no longer compile against the edited tree were excluded from the harness build: "
+                                   + ", ".join(br.hooks_excluded))
         needs = getattr(mod, "HARNESS_BINS", ["vh"])
         if any(not br.go_bins.get(b, False) for b in needs):
             run_err = "harness (go build -tags verif) no longer builds against the tree:\n" + br.go_log[-3000:]
